@@ -541,7 +541,7 @@ func TestVerifC07Seek(t *testing.T) {
 	mc.Run(t, mc.Config{ID: "C07", Name: "C07-seek-" + c07Geometry(), MaxDev: -1, Params: map[string]interface{}{
 		"geometry": c07Geometry(), "files": c07SpecSumm(specs), "depth": depth,
 		"ops": "Seek(whence in {start,current,end}, off in {-1,0,1,C,l/2,l-1,l,l+1}) | Read(len in {0,1,C+1}) | ReadAt(len C+1, off 1); every sequence ends with an observing Read",
-		"key": "(file, joiner.off, model position)"}},
+		"key": "(file, joiner.off, model position, whether a Read has reported EOF)"}},
 		func(x *mc.X) {
 			fi := x.Choose(len(specs))
 			f := c07Fixture(x, specs[fi].l, specs[fi].enc)
@@ -553,6 +553,7 @@ func TestVerifC07Seek(t *testing.T) {
 			x.Logf("%v", f)
 			var pos int64 // model: the position the next sequential Read continues from
 			seeks, fails := 0, 0
+			sawEOF := false // a Read has reported end-of-file: part of the pruning key (a reader may latch it)
 			read := func(n int) {
 				buf, sentinel := c07Buffer(f, pos, n, n)
 				var got int
@@ -563,9 +564,12 @@ func TestVerifC07Seek(t *testing.T) {
 				x.Logf("  Read(len=%d) at %d -> n=%d err=%v", n, pos, got, err)
 				c07CheckRead(x, f, buf, sentinel, pos, got, err)
 				pos += int64(got)
+				if err == io.EOF {
+					sawEOF = true
+				}
 			}
 			for step := 0; step < depth; step++ {
-				if x.Seen(fmt.Sprintf("%d/%d/%d", fi, j.off, pos), depth-step) {
+				if x.Seen(fmt.Sprintf("%d/%d/%d/%v", fi, j.off, pos, sawEOF), depth-step) {
 					return
 				}
 				op := x.Choose(nops)
